@@ -214,13 +214,13 @@ func runClassifier(c *ClassifierCase, out *outcome) {
 		}
 	}))
 	// Every node's goroutine reports through the client monitor once its classifier has run.
-	deadline := time.After(5 * time.Second)
+	deadline := time.After(30 * time.Second)
 	for seen := 0; seen < len(nodes); {
 		select {
 		case <-mon.ch:
 			seen++
 		case <-deadline:
-			out.harness = "a submitter goroutine did not finish within 5s"
+			out.harness = "a submitter goroutine did not finish within 30s"
 			return
 		}
 	}
